@@ -186,6 +186,8 @@ def c19_run(reqs):
             for n in names[:64]: e[n] = '7'
         if '@prior' in toks:
             e['CB_PRIOR_PPB'] = toks[toks.index('@prior') + 1]
+        if '@phc' in toks:
+            e['CB_PHC'] = '1'
         q = subprocess.run(cmd, env=e, stdin=subprocess.DEVNULL, stdout=subprocess.PIPE, stderr=subprocess.DEVNULL, text=True, timeout=60)
         return f'{r} => {q.stdout.strip() or "no-output"}'
     with concurrent.futures.ThreadPoolExecutor(max_workers=12) as ex:
@@ -205,6 +207,13 @@ def c19_gen(seed, thorough):
         for v in ('none', 50, 0, 4294967, 4294968):
             reqs.append(f'drift {v} @env')
         reqs.append('drift 50 @prior 1000 @env')
+        # the other options of the command line (PHC reference id + interface) given as well
+        for v in ('none', 50, 0, 1, 4294967, 4294968, 123456):
+            reqs.append(f'drift {v} @phc')
+        reqs.append('drift 50 @phc @prior 1000')
+        # far beyond 32 bits: multiples of 2^64/1000 and of 2^32 (a wider intermediate type must not let them through)
+        for v in (2**64 // 1000, 2**64 // 1000 + 1, 2**64 // 1000 + 51, 2**64 - 1, 2**64, 2**63, 2**32 * 1000, 2**32 + 50, 2**64 // 1000 * 3 + 2, 10**30):
+            reqs.append(f'drift {v}')
         # the option takes whole ppm: fractions are rejected (or, if ever accepted, published exactly)
         for v in ('1.015', '2.002', '0.0004', '33.333333', '0.5', '4294967.2959', '1.000'):
             reqs.append(f'drift {v}')
@@ -289,7 +298,7 @@ PROPS.update({
     project=proj_first2,
     nontrivial=lambda c: bool(c.tags & {'boundary', 'unrepresentable'}),
     shrink=False,
-    rule="the release `clockbound` binary built from the working tree is started in a private mount namespace (tmpfs /run) with --max-drift-rate X for X in {omitted, 0, 1, 50, 4294967, 4294968, 2^32-1, 2^32 (clap rejects), ...} plus seeded values; the max_drift_ppb field of the published segment or the exit status is compared; non-trivial = X*1000 >= 2^32 - 2000 (boundary or unrepresentable) || plus `@prior <ppb>`: the daemon restarts over a previous instance's valid segment whose live (Synchronized) record carries another rate (the published rate must be the configured one), and `@env`: every environment-variable-like name found in the release binary that could concern the rate (containing CLOCKBOUND / DRIFT / PPM / PPB) is set to 7",
+    rule="the release `clockbound` binary built from the working tree is started in a private mount namespace (tmpfs /run) with --max-drift-rate X for X in {omitted, 0, 1, 50, 4294967, 4294968, 2^32-1, 2^32 (clap rejects), ...} plus seeded values; the max_drift_ppb field of the published segment or the exit status is compared; non-trivial = X*1000 >= 2^32 - 2000 (boundary or unrepresentable) || plus `@prior <ppb>`: the daemon restarts over a previous instance's valid segment whose live (Synchronized) record carries another rate (the published rate must be the configured one), and `@env`: every environment-variable-like name found in the release binary that could concern the rate (containing CLOCKBOUND / DRIFT / PPM / PPB) is set to 7; `@phc`: the PHC options (--phc-ref-id, --phc-interface resolving to a fake uevent file inside the private /run) are given as well and must not change the published rate; values far beyond 32 bits (around 2^64/1000, 2^64, 10^30) must be refused, not reduced modulo anything",
     trusted_base=["clap's u32 parsing and process start-up are observed by running the binary, not modelled", "unshare -m + tmpfs isolation of /run"],
     technique='Lean 4 proof (omega) over all 32-bit rates + process-level differential runs of the release binary',
     level_text='Theorems C19.exact_or_refused, never_wrapped, default_one_ppm, published: the conversion yields exactly 1000 x rate or refuses, never a wrapped value, and the value reaches every published record. The 2^32 quantifier is carried by the theorem; ~60 release-binary runs per check sample it at the boundary.',
